@@ -895,6 +895,20 @@ Section Build.
         end
     end.
 
+  (* collectRawUserTypes: a second TYPE directive with a (non-empty) name already collected is
+     refused where the directives are collected (fix 5c83d2c) *)
+  Fixpoint dup_type_error (seen : list bytes) (ds : list dir) : option cerr :=
+    match ds with
+    | [] => None
+    | d :: rest =>
+        if N.eqb (d_kind d) DirectiveTables.dir_Type then
+          let n := named d KName in
+          if negb (beq n []) && existsb (beq n) seen
+          then Some (dir_error d (mkMsg ErrConsts.jerr_DuplicateNames [n]))
+          else dup_type_error (n :: seen) rest
+        else dup_type_error seen rest
+    end.
+
   (* buildUserTypes: rawUserTypes keeps one directive per name (the last one written), in the
      order the names first appear; a jsight or regex type needs a body *)
   Definition type_without_body (forest : list dir) : option cerr :=
@@ -979,6 +993,9 @@ Section Build.
                         | d :: _ => N.eqb (d_kind d) DirectiveTables.dir_Jsight
                         | [] => true
                         end in
+        match dup_type_error [] forest with
+        | Some e => CErr e
+        | None =>
         match type_without_body forest with
         | Some e => CErr e
         | None =>
@@ -995,7 +1012,7 @@ Section Build.
              | COk c => match validate c with Some e => CErr e | None => COk c end
              | o => o
              end
-        end end end
+        end end end end
     | o => o
     end.
 End Build.
